@@ -355,7 +355,7 @@ def shard(n, seed, known):
 
 def run(ctx):
     jobs = [(k, core.subseed(ctx.seed, "s", i), ctx.known_sigs)
-            for i, k in enumerate(core.split(ctx.n(320, 4000), 16))]
+            for i, k in enumerate(core.split(ctx.n(800, 6000), 16))]
     stats = core.Stats()
     for s in core.pmap(shard, jobs):
         stats.merge(s)
